@@ -335,3 +335,32 @@ func (w *World) ReopenAfterFailedRevert() {
 	w.Closed = true // the old handle is abandoned, not closed
 	w.Reopen(false)
 }
+
+// GetItemRaw is GetItem for concurrent scenarios: it checks the C15 hand-over
+// condition and (key-only) that no value came along, but compares the result
+// with the model only for presence, since a concurrent mutator may be running.
+func (w *World) GetItemRaw(name string, key []byte, withValue bool) {
+	c := w.Colls[name]
+	label := fmt.Sprintf("GetItemRaw(%s,%s,%v)", name, vstr(key), withValue)
+	w.begin(label, true, !withValue)
+	it, err := c.GetItem(key, withValue)
+	if err != nil {
+		w.Fail("concurrent", "lookup-error", "%s returned error %v", label, err)
+		return
+	}
+	if it != nil {
+		if w.RC != nil && (w.RC.Counts[it] <= 0 || w.RC.Dead[it]) {
+			w.Fail("refcount", "returned-item-released", "%s handed the caller an item whose count is %d (released before: %v)", label, w.RC.Counts[it], w.RC.Dead[it])
+		}
+		if !bytes.Equal(it.Key, key) {
+			w.Fail("concurrent", "lookup-wrong-key", "%s returned key %q", label, it.Key)
+		}
+		if withValue && it.Val == nil {
+			w.Fail("concurrent", "lookup-nil-value", "%s returned no value", label)
+		}
+		if w.RC != nil {
+			w.St.ItemDecRef(c, it)
+		}
+	}
+	w.logf("%s=%v", label, it != nil)
+}
